@@ -437,10 +437,10 @@ theorem c02_du_missing (cfg : Cfg) (env : Env) (m : Mods) (disc : Nat) (dmap : L
 
 /-! ### lazy -/
 
-/-- **lazy** (partial): on a non-nil input, when the target is asked at all and does not answer
-    with the placeholder error, lazy accepts iff its target does. -/
+/-- **lazy** (partial): on an input that is neither nil nor a nil pointer (/repo bc2d4fc: a nil pointer is a nil input),
+    when the target is asked at all and does not answer with the placeholder error, lazy accepts iff its target does. -/
 theorem c02_lazy_partial (cfg : Cfg) (env : Env) (m : Mods) (direct : Bool) (t : Mid) (v : V)
-    (hv : v.isNil = false) (hask : (cfg.lazyWrap || direct) = true)
+    (hv : lazyNil v = false) (hask : (cfg.lazyWrap || direct) = true)
     (hph : ∀ i ∈ errs env t v, (i.code == .invalidType && i.expLazy) = false) :
     (run cfg env (.lazy m direct t) v).isOk = true ↔ acc env t v = true := by
   simp only [run, parseLazy, hv, Bool.false_eq_true, ↓reduceIte, lazyAsk, hask]
@@ -455,7 +455,7 @@ theorem c02_lazy_partial (cfg : Cfg) (env : Env) (m : Mods) (direct : Bool) (t :
 
 def c02_lazy_full : Prop :=
   ∀ (cfg : Cfg) (env : Env) (m : Mods) (direct : Bool) (t : Mid) (v : V),
-    (run cfg env (.lazy m direct t) v).isOk = true ↔ (v.isNil = true ∧ nilOK m = true) ∨ acc env t v = true
+    (run cfg env (.lazy m direct t) v).isOk = true ↔ (lazyNil v = true ∧ nilOK m = true) ∨ acc env t v = true
 
 /-- Today `Lazy(func() … { return Object{…} }).Parse(true)` is ACCEPTED: a target whose `Parse`
     result type is not one of eight listed types is never asked (`schemaWrapper.Parse`), and the
